@@ -628,7 +628,7 @@ def gen_dir(draw, tier="quick"):
         logfloat(1e-3, 0.1),
         st.floats(0.3, math.pi / 2),
         # beyond a right angle every pair lies within the tolerance (no documented upper limit)
-        st.sampled_from([1.6, 2.0, 0.75 * math.pi, math.pi, 4.0]),
+        st.sampled_from([1.6, 2.0, 0.75 * math.pi, math.pi, 4.0, 5.0, 2.0 * math.pi, 1e3, math.inf]),
     )
     how = draw(st.sampled_from(["free", "sep", "sep", "overlap"]))
     if len(dirs) < 2 or not (1e-3 < minang < math.inf) or how == "free":
